@@ -84,6 +84,100 @@ def check_failure_raise(ctx, rule, key, site, g, rd, test, lab, resvar, exc_name
               'the non-success edge does not raise the operation failure with the result\'s own status/reason/message: %s' % why)
 
 
+def recv_accumulation(g, rd, fn, loop_node, cnt, part):
+    """In a receive loop: count += len(chunk) and the chunk is added to the message exactly once, in the same block, and nothing
+    else touches the two accumulators.  The message is either grown in place (buf += chunk, buf.extend(chunk) on a bytearray) or the
+    chunks are collected in a list that is joined once at the end (b''.join(chunks)).
+    -> (ok, message variable, list variable when joined else None, count-increment nodes, message-update nodes)"""
+    w = loop_node.stmt
+    incs = [n for n in g.nodes if n.kind == 'stmt' and isinstance(n.stmt, ast.AugAssign) and isinstance(n.stmt.op, ast.Add) and isinstance(n.stmt.target, ast.Name) and w in n.loops]
+    inc_cnt = [n for n in incs if n.stmt.target.id == cnt and U(n.stmt.value) == 'len(%s)' % part]
+    msgv = [n for n in incs if n.stmt.target.id != cnt and isinstance(n.stmt.value, ast.Name) and n.stmt.value.id == part]
+    calls = [n for n in g.nodes if n.kind == 'stmt' and w in n.loops and isinstance(n.stmt, ast.Expr) and isinstance(n.stmt.value, ast.Call)
+             and isinstance(n.stmt.value.func, ast.Attribute) and isinstance(n.stmt.value.func.value, ast.Name)
+             and len(n.stmt.value.args) == 1 and isinstance(n.stmt.value.args[0], ast.Name) and n.stmt.value.args[0].id == part]
+    apps = [n for n in calls if n.stmt.value.func.attr == 'append']
+    exts = [n for n in calls if n.stmt.value.func.attr == 'extend']
+    joined = None
+    n_aug = 2
+    if not msgv and len(apps) == 1 and not exts:
+        msgv, joined, n_aug = apps, apps[0].stmt.value.func.value.id, 1
+    elif not msgv and len(exts) == 1 and not apps:
+        msgv, n_aug = exts, 1
+    good = len(inc_cnt) == 1 and len(msgv) == 1 and len(incs) == n_aug and inc_cnt[0].stmt._parent is msgv[0].stmt._parent
+    msg = None
+    if good:
+        m0 = msgv[0].stmt
+        msg = joined or (m0.target.id if isinstance(m0, ast.AugAssign) else m0.value.func.value.id)
+        other = [n for n in g.nodes if w in n.loops and n not in (inc_cnt[0], msgv[0]) and any(v in (cnt, msg) for v, d in rd.node_defs[n.id])]
+        good = not other
+        inits = [val for var, val, dn in rd.reaching(loop_node, msg) if dn is None or w not in dn.loops]       # definitions before the loop
+        if joined is not None:
+            good = good and bool(inits) and all((isinstance(v, ast.List) and not v.elts) or (isinstance(v, ast.Call) and call_name(v) == 'list' and not v.args) for v in inits)
+        elif not isinstance(m0, ast.AugAssign):
+            good = good and bool(inits) and all(isinstance(v, ast.Call) and call_name(v) == 'bytearray' and not v.args for v in inits)
+        else:
+            good = good and bool(inits) and all((isinstance(v, ast.Constant) and v.value == b'') or (isinstance(v, ast.Call) and call_name(v) in ('bytes', 'bytearray') and not v.args) for v in inits)
+        if joined is not None or not isinstance(m0, ast.AugAssign):
+            uses = [x for x in ast.walk(fn) if isinstance(x, ast.Name) and x.id == msg and isinstance(x.ctx, ast.Load)]
+            for x in uses:
+                par = getattr(x, '_parent', None)
+                ok_use = (isinstance(par, ast.Attribute) and par.attr in ('append', 'extend')) or isinstance(par, ast.Return) \
+                    or (isinstance(par, ast.Call) and (isinstance(par.func, ast.Attribute) and par.func.attr == 'join' or call_name(par) in ('bytes', 'len')))
+                good = good and ok_use
+    return good, msg, joined, inc_cnt, msgv
+
+
+def returns_message(s, msg, joined):
+    """the return statement hands back the accumulated message (the buffer itself, bytes(buffer), or b''.join(chunks))"""
+    if not isinstance(s, ast.Return):
+        return False
+    v = s.value
+    if joined is not None:
+        return isinstance(v, ast.Call) and isinstance(v.func, ast.Attribute) and v.func.attr == 'join' and isinstance(v.func.value, ast.Constant) \
+            and v.func.value.value == b'' and len(v.args) == 1 and isinstance(v.args[0], ast.Name) and v.args[0].id == joined
+    if isinstance(v, ast.Call) and call_name(v) == 'bytes' and len(v.args) == 1:
+        v = v.args[0]
+    return isinstance(v, ast.Name) and v.id == msg
+
+
+def frame_length_var(fn, hv):
+    """(ok, name): the frame length is the big-endian unsigned 32-bit number in bytes 4..8 of the header variable hv, bound to `name`:
+    unpack('!I', hv[4:8])[0], unpack_from('!I', hv, 4)[0] or int.from_bytes(hv[4:8], 'big')"""
+    unp = [c for c in ast.walk(fn) if isinstance(c, ast.Call) and (call_name(c) or '').split('.')[-1] in ('unpack', 'unpack_from', 'from_bytes')]
+    oku, szv = False, None
+
+    def const_slice(sl, name):
+        if isinstance(sl, ast.Subscript) and isinstance(sl.value, ast.Name) and sl.value.id == name and isinstance(sl.slice, ast.Slice):
+            lo = sl.slice.lower.value if isinstance(sl.slice.lower, ast.Constant) else None
+            hi = sl.slice.upper.value if isinstance(sl.slice.upper, ast.Constant) else (8 if sl.slice.upper is None else None)
+            return lo, hi
+        return None, None
+    if hv and len(unp) == 1:
+        u = unp[0]
+        kind = (call_name(u) or '').split('.')[-1]
+        up = u._parent
+        direct = False
+        if kind == 'unpack' and len(u.args) == 2 and isinstance(u.args[0], ast.Constant) and u.args[0].value in ('!I', '>I'):
+            oku = const_slice(u.args[1], hv) == (4, 8)
+        elif kind == 'unpack_from' and len(u.args) >= 2 and isinstance(u.args[0], ast.Constant) and u.args[0].value in ('!I', '>I') \
+                and isinstance(u.args[1], ast.Name) and u.args[1].id == hv:
+            off = u.args[2] if len(u.args) > 2 else next((k.value for k in u.keywords if k.arg == 'offset'), None)
+            oku = isinstance(off, ast.Constant) and off.value == 4
+        elif kind == 'from_bytes' and U(u.func) == 'int.from_bytes' and u.args:
+            order = u.args[1] if len(u.args) > 1 else next((k.value for k in u.keywords if k.arg == 'byteorder'), None)
+            signed = next((k.value for k in u.keywords if k.arg == 'signed'), None)
+            oku = const_slice(u.args[0], hv) == (4, 8) and isinstance(order, ast.Constant) and order.value == 'big' \
+                and (signed is None or (isinstance(signed, ast.Constant) and signed.value is False))
+            direct = True
+        if direct and isinstance(up, ast.Assign) and isinstance(up.targets[0], ast.Name):
+            szv = up.targets[0].id
+        elif not direct and isinstance(up, ast.Subscript) and isinstance(up.slice, ast.Constant) and up.slice.value == 0 and isinstance(up._parent, ast.Assign) \
+                and isinstance(up._parent.targets[0], ast.Name):
+            szv = up._parent.targets[0].id
+    return oku, szv
+
+
 def check_recv_loop(ctx, rule, rel, qual, fn, exc_ok):
     """Length-prefixed receive loop: while got < want: chunk = recv(want - got); empty -> leave/raise; got += len(chunk); buf += chunk; got != want -> raise."""
     g = CFG(fn)
@@ -117,14 +211,7 @@ def check_recv_loop(ctx, rule, rel, qual, fn, exc_ok):
     part = ap.targets[0].id if isinstance(ap, ast.Assign) and isinstance(ap.targets[0], ast.Name) else None
     if part is None:
         raise AnalysisError('unrecognised construct: recv result is not bound to a name in %s' % qual)
-    incs = [n for n in g.nodes if n.kind == 'stmt' and isinstance(n.stmt, ast.AugAssign) and isinstance(n.stmt.op, ast.Add) and isinstance(n.stmt.target, ast.Name) and w in n.loops]
-    inc_cnt = [n for n in incs if n.stmt.target.id == cnt and U(n.stmt.value) == 'len(%s)' % part]
-    msgv = [n for n in incs if n.stmt.target.id != cnt and isinstance(n.stmt.value, ast.Name) and n.stmt.value.id == part]
-    good = len(inc_cnt) == 1 and len(msgv) == 1 and len(incs) == 2 and inc_cnt[0].stmt._parent is msgv[0].stmt._parent
-    if good:
-        msg = msgv[0].stmt.target.id
-        other = [n for n in g.nodes if w in n.loops and n not in (inc_cnt[0], msgv[0]) and any(v in (cnt, msg) for v, d in rd.node_defs[n.id])]
-        good = not other
+    good, msg, joined, inc_cnt, msgv = recv_accumulation(g, rd, fn, loops[0], cnt, part)
     ctx.check(good, rule, qual + '|accumulates-exactly-received', site, 'count += len(chunk); message += chunk (same block, nothing else)',
               'the loop does not add exactly the received chunk to both the count and the buffer')
     if not good:
@@ -142,7 +229,7 @@ def check_recv_loop(ctx, rule, rel, qual, fn, exc_ok):
     ctx.check(empty_ok, rule, qual + '|empty-read-ends-loop', site, 'an empty chunk ends the loop', 'an empty recv() result neither ends the loop nor raises (busy loop at end of stream)')
     for pn, lab in g.exit.pred:
         s = pn.stmt
-        okret = isinstance(s, ast.Return) and isinstance(s.value, ast.Name) and s.value.id == msg
+        okret = returns_message(s, msg, joined)
         eq = False
         for t, l2 in dominating_edges(g, pn):
             q = cmp_parts(t.stmt)
@@ -366,20 +453,7 @@ def run(ctx):
     rc = [c for n, c in call_nodes(rg, 'self._recv_all')]
     okh = len(rc) == 2 and hs == [8] and (is_self_attr(rc[0].args[0], 'HEADER_SIZE') or (isinstance(rc[0].args[0], ast.Constant) and rc[0].args[0].value == 8))
     hv = rc[0]._parent.targets[0].id if okh and isinstance(rc[0]._parent, ast.Assign) else None
-    unp = [c for c in ast.walk(rdm) if isinstance(c, ast.Call) and (call_name(c) or '').endswith('unpack')]
-    oku = False
-    szv = None
-    if hv and len(unp) == 1:
-        u = unp[0]
-        fmt = u.args[0].value if isinstance(u.args[0], ast.Constant) else None
-        sl = u.args[1] if len(u.args) > 1 else None
-        if fmt in ('!I', '>I') and isinstance(sl, ast.Subscript) and isinstance(sl.value, ast.Name) and sl.value.id == hv and isinstance(sl.slice, ast.Slice):
-            lo = sl.slice.lower.value if isinstance(sl.slice.lower, ast.Constant) else None
-            hi = sl.slice.upper.value if isinstance(sl.slice.upper, ast.Constant) else (8 if sl.slice.upper is None else None)
-            oku = lo == 4 and hi == 8
-        up = u._parent
-        if isinstance(up, ast.Subscript) and isinstance(up.slice, ast.Constant) and up.slice.value == 0 and isinstance(up._parent, ast.Assign):
-            szv = up._parent.targets[0].id
+    oku, szv = frame_length_var(rdm, hv)
     ctx.check(okh and oku and szv is not None and isinstance(rc[1].args[0], ast.Name) and rc[1].args[0].id == szv, 'C19.R3', 'KMIPProtocol.read|header-and-length', rsite,
               '8-byte header; length = big-endian uint32 at bytes 4..8', 'frame length is not taken from header bytes 4..8 as a big-endian 32-bit count')
     if okh:
@@ -387,9 +461,13 @@ def run(ctx):
         okf = False
         for pn, l in rg.exit.pred:
             s = pn.stmt
-            if isinstance(s, ast.Return) and isinstance(s.value, ast.Name):
-                vv = rrd.values(pn, s.value.id)
-                okf = len(vv) == 1 and isinstance(vv[0], ast.Call) and (call_name(vv[0]) or '').endswith('BytearrayStream') and vv[0].args and U(vv[0].args[0]) == '%s + %s' % (hv, pv_)
+            if isinstance(s, ast.Return):
+                from ..dataflow import resolve
+                v0, vn = resolve(rrd, pn, s.value)
+                okf = isinstance(v0, ast.Call) and (call_name(v0) or '').endswith('BytearrayStream') and bool(v0.args)
+                if okf:
+                    a0, _an = resolve(rrd, vn, v0.args[0])
+                    okf = U(a0) == '%s + %s' % (hv, pv_)
         ctx.check(okf, 'C19.R3', 'KMIPProtocol.read|frame-is-header-plus-payload', rsite, 'returns stream(header + payload)', 'the returned frame is not header + payload')
         # exceptions of the short read are re-raised (EOFError or the mismatch), never swallowed
         sw = False
